@@ -14,185 +14,116 @@
 //! where <iter> is `P` (the call panicked) or
 //!     <granularity>:<range.start>:<range.end>:<converged>:<score>|<state>
 //! and <state> is `-` or the private state of the algorithm after that step, read
-//! from the `Debug` rendering of the iterator (the fields are private and the crate
-//! has no hooks):
-//!     perm|offsets|error_max bits|int_matrix rows|min rows|max rows|qdigests|last row|win
-//! with one digest `n:minkey:maxkey:keysum:valsum bits` per Q-value row, the last
-//! row `key:bits,key:bits,..` sorted by key, and `win` = `min:max` of the
-//! `ScoresIterator` after the step (`-` for C12).
+//! through the `verif-hooks` accessors `verif_state()` / `verif_window()` of the
+//! iterators (/repo 86badd0):
+//!     perm|offsets|error_max bits|int_matrix rows|min rows|max rows|qdigests|last row|win|ord
+//! with one digest `n:minkey:maxkey:keysum:valsum bits:checksum` per Q-value row
+//! (checksum = wrapping sum of bits(v) * (2 key + 1): all values of the row bit for bit),
+//! the last row `key:bits,key:bits,..` sorted by key, `win` = `min:max` of the
+//! `ScoresIterator` after the step (`-` for C12) and `ord` = the keys of the rows
+//! 0..M-2 in the iteration order of their hash maps, `k,k,..` joined by `/` (`-` when
+//! there are more than ORD_CAP entries): the order in which `distribution` visited them.
 
 use generic_array::GenericArray;
 use lightmotif::abc::{Alphabet, Background, Dna, Protein};
 use lightmotif::dense::DenseMatrix;
 use lightmotif::num::{Unsigned, U5};
 use lightmotif::pwm::{CountMatrix, ScoringMatrix};
-use lightmotif_tfmpvalue::TfmPvalue;
+use lightmotif_tfmpvalue::{TfmPvalue, VerifState};
 use lmh::*;
 
 /// alphabet size of the DNA cases (the protein cases have 21 columns)
 const K: usize = 5;
 
-// ---------------------------------------------------------------- Debug parsing
-
-/// Return the text of field `name` in a `Debug` rendering: the balanced
-/// bracket/brace expression, or the scalar token, following the first
-/// occurrence of `name: ` that starts at a field boundary at or after `from`.
-fn dbg_field<'a>(s: &'a str, name: &str, from: usize) -> Option<&'a str> {
-    let pat = format!("{}: ", name);
-    let mut start = from;
-    loop {
-        let i = s[start..].find(&pat)? + start;
-        let boundary = i == 0 || {
-            let p = s.as_bytes()[i - 1];
-            p == b' ' || p == b'{' || p == b'('
-        };
-        if !boundary {
-            start = i + 1;
-            continue;
-        }
-        let v = i + pat.len();
-        let b = s.as_bytes();
-        if v >= b.len() {
-            return None;
-        }
-        if b[v] == b'[' || b[v] == b'{' {
-            let mut depth = 0i32;
-            for (k, &c) in b[v..].iter().enumerate() {
-                if c == b'[' || c == b'{' {
-                    depth += 1;
-                } else if c == b']' || c == b'}' {
-                    depth -= 1;
-                    if depth == 0 {
-                        return Some(&s[v..v + k + 1]);
-                    }
-                }
-            }
-            return None;
-        } else {
-            let mut k = v;
-            while k < b.len() && b[k] != b',' && b[k] != b' ' && b[k] != b'}' {
-                k += 1;
-            }
-            return Some(&s[v..k]);
-        }
-    }
-}
-
-fn parse_i64_list(s: &str) -> Option<Vec<i64>> {
-    let t = s.trim().strip_prefix('[')?.strip_suffix(']')?;
-    if t.trim().is_empty() {
-        return Some(vec![]);
-    }
-    t.split(',').map(|x| x.trim().parse::<i64>().ok()).collect()
-}
-
-fn parse_i64_matrix(s: &str) -> Option<Vec<Vec<i64>>> {
-    let t = s.trim().strip_prefix('[')?.strip_suffix(']')?;
-    let mut rows = vec![];
-    let mut rest = t;
-    while let Some(a) = rest.find('[') {
-        let b = rest[a..].find(']')? + a;
-        rows.push(parse_i64_list(&rest[a..=b])?);
-        rest = &rest[b + 1..];
-    }
-    Some(rows)
-}
-
-fn parse_f64(s: &str) -> Option<f64> {
-    match s {
-        "NaN" => Some(f64::NAN),
-        "inf" => Some(f64::INFINITY),
-        "-inf" => Some(f64::NEG_INFINITY),
-        _ => s.parse::<f64>().ok(),
-    }
-}
-
-/// `[{k: v, k: v}, {}, ...]` -> sorted (key, value) lists
-fn parse_qvalues(s: &str) -> Option<Vec<Vec<(i64, f64)>>> {
-    let t = s.trim().strip_prefix('[')?.strip_suffix(']')?;
-    let mut maps = vec![];
-    let mut rest = t;
-    while let Some(a) = rest.find('{') {
-        let b = rest[a..].find('}')? + a;
-        let body = &rest[a + 1..b];
-        let mut m = vec![];
-        if !body.trim().is_empty() {
-            for kv in body.split(',') {
-                let (k, v) = kv.split_once(':')?;
-                m.push((k.trim().parse::<i64>().ok()?, parse_f64(v.trim())?));
-            }
-        }
-        m.sort_by_key(|kv| kv.0);
-        maps.push(m);
-        rest = &rest[b + 1..];
-    }
-    Some(maps)
-}
+// ---------------------------------------------------------------- private state (verif-hooks)
 
 fn join<T: ToString>(v: &[T], sep: &str) -> String {
     v.iter().map(|x| x.to_string()).collect::<Vec<_>>().join(sep)
 }
 
-/// Private state of the algorithm from the Debug rendering of an iterator.
-fn state_of(dbg: &str, scores_iter: bool) -> Option<String> {
-    let t = dbg.find("tfmp: ")?;
-    let perm = parse_i64_list(dbg_field(dbg, "permutation", t)?)?;
-    let p0 = dbg[t..].find("permutation: ")? + t;
-    let offs = parse_i64_list(dbg_field(dbg, "offsets", p0)?)?;
-    let im = parse_i64_matrix(dbg_field(dbg, "int_matrix", p0)?)?;
-    let em = parse_f64(dbg_field(dbg, "error_max", p0)?)?;
-    let maxr = parse_i64_list(dbg_field(dbg, "max_score_rows", p0)?)?;
-    let minr = parse_i64_list(dbg_field(dbg, "min_score_rows", p0)?)?;
-    let qv = parse_qvalues(dbg_field(dbg, "qvalues", p0)?)?;
-    let m = perm.len();
-    if offs.len() != m || im.len() != m || qv.len() != m + 1 || m == 0 {
+/// Above this number of entries in the rows 0..M-2 the iteration order is not printed
+/// (the driver then compares the probabilities of that step with a tolerance).
+const ORD_CAP: usize = 6000;
+
+/// Order-independent checksum of a Q-value row: wrapping sum of bits(v) * (2 k + 1).
+fn row_checksum(row: &[(i64, f64)]) -> i64 {
+    let mut c = 0u64;
+    for kv in row.iter() {
+        c = c.wrapping_add(kv.1.to_bits().wrapping_mul((kv.0 as u64).wrapping_mul(2).wrapping_add(1)));
+    }
+    c as i64
+}
+
+/// Private state of the algorithm, from the `verif-hooks` accessor `verif_state()`
+/// (`win` = `verif_window()` of a `ScoresIterator`).
+fn state_of(vs: &VerifState, win: Option<(i64, i64)>) -> Option<String> {
+    let m = vs.permutation.len();
+    if vs.offsets.len() != m || vs.int_matrix.len() != m || vs.qvalues.len() != m + 1 || m == 0 {
         return None;
     }
-    let digests: Vec<String> = qv
+    // rows sorted by key (digest, last row) and in the iteration order of the hash map (ord)
+    let sorted: Vec<Vec<(i64, f64)>> = vs
+        .qvalues
+        .iter()
+        .map(|row| {
+            let mut r = row.clone();
+            r.sort_by_key(|kv| kv.0);
+            r
+        })
+        .collect();
+    let digests: Vec<String> = sorted
         .iter()
         .map(|row| {
             if row.is_empty() {
-                "0:0:0:0:0".to_string()
+                "0:0:0:0:0:0".to_string()
             } else {
                 let ks: i128 = row.iter().map(|kv| kv.0 as i128).sum();
-                let mut vs = 0.0f64;
+                let mut v = 0.0f64;
                 for kv in row.iter() {
-                    vs += kv.1;
+                    v += kv.1;
                 }
                 format!(
-                    "{}:{}:{}:{}:{}",
+                    "{}:{}:{}:{}:{}:{}",
                     row.len(),
                     row[0].0,
                     row[row.len() - 1].0,
                     ks,
-                    vs.to_bits()
+                    v.to_bits(),
+                    row_checksum(row)
                 )
             }
         })
         .collect();
-    let last: Vec<String> = qv[m - 1]
+    let last: Vec<String> = sorted[m - 1]
         .iter()
         .map(|kv| format!("{}:{}", kv.0, kv.1.to_bits()))
         .collect();
-    let win = if scores_iter {
-        let q0 = dbg[p0..].find("qvalues: ")? + p0;
-        let lo = dbg_field(dbg, "min", q0)?.parse::<i64>().ok()?;
-        let hi = dbg_field(dbg, "max", q0)?.parse::<i64>().ok()?;
-        format!("{}:{}", lo, hi)
-    } else {
+    let total: usize = vs.qvalues[..m - 1].iter().map(|r| r.len()).sum();
+    let ord = if total > ORD_CAP {
         "-".to_string()
+    } else {
+        vs.qvalues[..m - 1]
+            .iter()
+            .map(|r| r.iter().map(|kv| kv.0.to_string()).collect::<Vec<_>>().join(","))
+            .collect::<Vec<_>>()
+            .join("/")
+    };
+    let win = match win {
+        Some((lo, hi)) => format!("{}:{}", lo, hi),
+        None => "-".to_string(),
     };
     Some(format!(
-        "{}|{}|{}|{}|{}|{}|{}|{}|{}",
-        join(&perm, ","),
-        join(&offs, ","),
-        em.to_bits(),
-        im.iter().map(|r| join(r, ",")).collect::<Vec<_>>().join("/"),
-        join(&minr, ","),
-        join(&maxr, ","),
+        "{}|{}|{}|{}|{}|{}|{}|{}|{}|{}",
+        join(&vs.permutation, ","),
+        join(&vs.offsets, ","),
+        vs.error_max.to_bits(),
+        vs.int_matrix.iter().map(|r| join(r, ",")).collect::<Vec<_>>().join("/"),
+        join(&vs.min_score_rows, ","),
+        join(&vs.max_score_rows, ","),
         digests.join("/"),
         last.join(","),
-        win
+        win,
+        ord
     ))
 }
 
@@ -286,7 +217,7 @@ fn run_c12_g<A: Alphabet>(c: &Case) -> String {
                 }
                 Some(None) => break,
                 Some(Some(x)) => {
-                    let st = no_panic(|| state_of(&format!("{:?}", it), false)).flatten().unwrap_or("-".to_string());
+                    let st = no_panic(|| state_of(&it.verif_state(), None)).flatten().unwrap_or("-".to_string());
                     its.push(format!(
                         "{}:{}:{}:{}:{}|{}",
                         x.granularity.to_bits(),
@@ -333,8 +264,8 @@ fn run_c13_g<A: Alphabet>(c: &Case) -> String {
                 panicked = true;
             }
             Some(mut it) => {
-                if let Some(Some(st)) = no_panic(|| state_of(&format!("{:?}", it), true)) {
-                    w0 = st.rsplit('|').next().unwrap().to_string();
+                if let Some((lo, hi)) = no_panic(|| it.verif_window()) {
+                    w0 = format!("{}:{}", lo, hi);
                 }
                 for _ in 0..c.steps {
                     match no_panic(|| it.next()) {
@@ -345,7 +276,7 @@ fn run_c13_g<A: Alphabet>(c: &Case) -> String {
                         }
                         Some(None) => break,
                         Some(Some(x)) => {
-                            let st = no_panic(|| state_of(&format!("{:?}", it), true)).flatten().unwrap_or("-".to_string());
+                            let st = no_panic(|| state_of(&it.verif_state(), Some(it.verif_window()))).flatten().unwrap_or("-".to_string());
                             its.push(format!(
                                 "{}:{}:{}:{}:{}|{}",
                                 x.granularity.to_bits(),
